@@ -486,6 +486,30 @@ def guards_of(b, bb, within=None):
     return ded
 
 
+def dominating_edge_guards(b, bb):
+    """branch edges that every path from the entry to bb must take (e.g. the exit edge of a `while` loop),
+    described like guards_of"""
+    out = []
+    for a in sorted(b.dom().get(bb, ())):
+        if a == bb:
+            continue
+        tt = b.blocks[a]["term"]
+        if tt["k"] != "switch":
+            continue
+        for s in b.succs(a):
+            if bb in b.reach_from(0, avoid_edges={(a, s)}):
+                continue
+            c = strip(term_of(b, tt["op"]))
+            truth = not any(int(v) == 0 and t == s for v, t in tt["targets"])
+            neg = False
+            while c[0] == "unop" and c[1] == "Not":
+                c = strip(c[2])
+                neg = not neg
+            if c[0] == "call":
+                out.append(("call", c[1], [strip(x, mir.VALUE_PRESERVING) for x in c[2]], truth != neg, c[3], (a, s)))
+    return out
+
+
 def guard_s(g):
     if g[0] == "enum":
         return "%s is %s" % (term_s(g[2])[:50], g[3])
